@@ -24,7 +24,7 @@ CHECKS = {
          "For every resolution up to the bound: all same-face cell pairs clipped in the plane, interior points of every cell searched in all cells of the three nearest faces, every lattice point searched exhaustively (>=1 cell within the band, <=1 strictly), signed areas telescoping to 4 pi; at fine resolutions two-ring neighbourhoods found by lookup. At fine resolutions the point must also be covered (no gap), incl. the frozen reference places of word-aligned cells. Order mixing across face edges: for every cell next to a dodecahedron edge (r=2..3/5) and every cell of the neighbouring face beyond it, all ordered pairs of strict-interior points of both cells are put to the library's containment predicate for each of the two cells on one fresh thread (second answer must be inside exactly for the cell's own points).",
          "Cross-face containment goes through the real forward projection (C15). No-gap verdict is for lattice points; the measure identity bounds the rest.", "4 C03"),
  "C17": ("hilbert-automaton", "model_checking", "exhaustive enumeration of all curve positions to a depth bound x 6 orientations + explicit-state exploration of the digit-walk automaton bound by conformance",
-         "All s < 4^n (n<=9/12) for all six orientations on real outputs: pairwise distinct pentagons, centres in the quintant triangle, locating the centre returns s. The digit walk is modelled as a 16-state Mealy machine, compared bit for bit with the real s_to_anchor_internal on every position up to depth 8/10, and its pair automaton is explored for a non-injective witness, which covers every depth. A jumping-order pass visits all depths 1..29 on one thread in a non-monotone order with an unrelated walk between computing and locating each centre.",
+         "All s < 4^n (n<=9/12) for all six orientations on real outputs: pairwise distinct pentagons, centres in the quintant triangle, locating the centre returns s. The digit walk is modelled as a 16-state Mealy machine, compared bit for bit with the real s_to_anchor_internal on every position up to depth 8/10, and its pair automaton is explored for a non-injective witness, which covers every depth. A jumping-order pass visits all depths 1..29 on one thread in a non-monotone order with an unrelated walk between computing and locating each centre. Position-major pass: every position (all s<4^n, n<=6/8; structured positions to n=29) in all six orientations back to back, in every cyclic order and its reverse, on one fresh thread per depth.",
          "The all-depth claim rests on the model; it is made only when conformance passes (otherwise the run reports model_bound=false and decides on real outputs only).", "3.4, 5 C17"),
  "C01": ("lattice", "exploration", "exhaustive enumeration of a fixed sphere lattice x all 30 resolutions against a containment oracle",
          "Every point of a lattice built from the code's own case splits (12 faces, 30 edges, 20 vertices, sector seams, polar caps, antimeridian, every cell's vertices and edge midpoints with offsets down to 1e-9) is looked up at every resolution 0..29; the answer must be a canonical id of exactly that resolution whose planar polygon contains the point within a 4e-12 band, and for r<=12 whose reported boundary ring contains it (independent spherical test). Verdict is for the lattice, not the continuum. Plus call ladders: a lookup repeated after exactly 255..65537 identical lookups on one thread.",
@@ -33,13 +33,13 @@ CHECKS = {
          "Centres of all cells r<=6/9 and a 51-point strict-interior lattice of all cells r<=4/7, of digit-pattern families to r=29 and of pole/antimeridian cells must look up to the same id. Plus all ordered pairs (p1 then p2 on one thread) of the interior points of 30+ neighbourhoods spread over whole faces that miss their first estimate.",
          "Points are classified strict-interior through the real forward projection of what is passed to the API; finer resolutions on families only.", "4 C02"),
  "C04": ("lattice", "exploration", "exhaustive enumeration of all cells up to a resolution bound, independent spherical polygon area",
-         "Every cell r<=4/7 plus families to r=29 and pole/antimeridian cells: area measured from the reported boundary (32-64 segments per edge) with an independent spherical-polygon formula equals sphere/N within 1e-4; areas of a resolution sum to 4 pi; metadata table equals the quotient. Plus fine cells (r>=24) cut by the break lines of the coordinate functions (octant meridians and parallels of the rotated frame, rays at multiples of 45 deg around face centres) and word-aligned cells.",
+         "Every cell r<=4/7 plus families to r=29 and pole/antimeridian cells: area measured from the reported boundary (32-64 segments per edge) with an independent spherical-polygon formula equals sphere/N within 1e-4; areas of a resolution sum to 4 pi; metadata table equals the quotient. Plus fine cells (r>=24) cut by the break lines of the coordinate functions (octant meridians and parallels of the rotated frame, rays at multiples of 45 deg around face centres) and word-aligned cells. Area after another request: for every cell r<=4/6 the finely subdivided ring is requested again right after each of six other requests for the same cell on the same thread (coarse / closed / default ring, centre) and must enclose sphere/N within 1e-4.",
          "Trusts RefSphere area and the reference authalic conversion.", "4 C04"),
  "C11": ("lattice", "exploration", "exhaustive enumeration of all cells up to a resolution bound x 12 option combinations",
          "Every cell r<=3/6 plus pole/antimeridian cells at every finer resolution and families x closed/open x n in {1,2,3,7,64,default}: length, closure, finiteness, latitude range, orientation, centre inside, longitude window, corner identity. Plus the ring of the cell a lookup returns, drawn right after the lookup on the same fresh thread (corner, edge-midpoint and centre points of coarse cells at three resolutions each). Option histories: all 13 824 sequences of three requests over 2 cells x closed/open x 6 subdivisions, for 6/11 cell pairs, on one fresh thread each: every ring has the length and the physical points (1e-9 deg) of the same request made first on a fresh thread.",
          "Pole exemption decided on the n=64 ring with a 1e-3 cell-size margin.", "4 C11"),
  "C12": ("lattice", "exploration", "exhaustive enumeration of all parents up to a resolution bound with all children, planar clipping",
-         "Every parent r<=4/7 and family parents to r=28 with all children: planar convex clipping shows shared interior, union cover > 1/2, centre distance <= 0.8 sqrt(parent area).",
+         "Every parent r<=4/7 and family parents to r=28 with all children: planar convex clipping shows shared interior, union cover > 1/2, centre distance <= 0.8 sqrt(parent area). Column-major pass: children's centres requested so that consecutive requests differ in the face or the segment only (corresponding child of all 60 face x segment combinations back to back, both nestings), parents r=2..5/8; same reach bound.",
          "Trusts Sutherland-Hodgman clipping of convex polygons in the shared face plane.", "4 C12"),
  "C15": ("lattice", "exploration", "exhaustive enumeration of sphere and plane lattices against an independent dodecahedron frame",
          "Sphere lattice relative to nearest and second-nearest face of an independent regular dodecahedron, and a polar plane lattice on all 12 faces: inside/outside the face pentagon and round trips within 1e-12 / 1e-11. Wedge histories: for every face and every 36-degree wedge, all ordered pairs (with echo) of 12 ops (forward/inverse of two points inside the pentagon, two beyond the edge in the same wedge, one inside and one beyond in the next wedge) on one projection object; every call must agree within 1e-11 with the cold round trip of its point.",
